@@ -236,6 +236,10 @@ type c16Issuer struct {
 	ID      string // current issuer id in the mount; "" while removed
 	Parent  int    // index of the signing issuer for an intermediate, -1 for a root
 	Revoked bool   // issuer/<id>/revoke reported success
+	// Group: index of the first issuer with the same subject and key. Issuers of one group are
+	// equivalent for revocation purposes and share one CRL (documented behaviour).
+	Group int
+	KeyID string
 	// EverRemoved: the issuer was absent from the mount at some time; certificates of an absent issuer
 	// are listed on the then-default issuer's CRL ("unassigned"), so placement checks stop for them.
 	EverRemoved bool
@@ -493,9 +497,46 @@ func (w *c16World) addRoot() int {
 	if err != nil {
 		panic(err)
 	}
-	w.iss = append(w.iss, c16Issuer{Name: name, cert: c, certPEM: resp.Data["certificate"].(string), signer: s, ID: fmt.Sprint(resp.Data["issuer_id"]), Parent: -1})
+	w.iss = append(w.iss, c16Issuer{Name: name, cert: c, certPEM: resp.Data["certificate"].(string), signer: s, ID: fmt.Sprint(resp.Data["issuer_id"]), Parent: -1, Group: len(w.iss), KeyID: fmt.Sprint(resp.Data["key_id"])})
 	w.step("add %s", name)
 	return len(w.iss) - 1
+}
+
+// addSibling creates a second self-signed root with the subject and key of
+// root i (a re-issued root): both form one issuer group sharing one CRL.
+func (w *c16World) addSibling(i int) int {
+	name := fmt.Sprintf("%ssib%d", w.iss[i].Name, len(w.iss))
+	resp, err := w.do(logical.UpdateOperation, "issuers/generate/root/existing", map[string]any{
+		"common_name": "C16 " + w.iss[i].Name, "key_ref": w.iss[i].KeyID, "ttl": "70000h", "issuer_name": name,
+	})
+	if !c16OK(resp, err) || resp == nil {
+		panic("c16: generate sibling root: " + c16Why(resp, err))
+	}
+	c, err := c16ParseCertPEM(resp.Data["certificate"].(string))
+	if err != nil {
+		panic(err)
+	}
+	if !bytes.Equal(c.RawSubject, w.iss[i].cert.RawSubject) {
+		panic("c16: sibling root has another subject")
+	}
+	w.iss = append(w.iss, c16Issuer{Name: name, cert: c, certPEM: resp.Data["certificate"].(string), signer: w.iss[i].signer, ID: fmt.Sprint(resp.Data["issuer_id"]), Parent: -1, Group: w.iss[i].Group, KeyID: w.iss[i].KeyID})
+	w.step("add %s (same subject and key as %s)", name, w.iss[i].Name)
+	w.r.Count("sibling_issuers", 1)
+	return len(w.iss) - 1
+}
+
+// crlIssuer returns the index of a present issuer whose CRL covers certificates of issuer i:
+// i itself, else another present member of its group; -1 if none.
+func (w *c16World) crlIssuer(i int) int {
+	if w.iss[i].ID != "" {
+		return i
+	}
+	for j := range w.iss {
+		if w.iss[j].ID != "" && w.iss[j].Group == w.iss[i].Group {
+			return j
+		}
+	}
+	return -1
 }
 
 // addIntermediate creates an intermediate CA signed by issuer parent inside
@@ -529,7 +570,7 @@ func (w *c16World) addIntermediate(parent int, importNow bool) int {
 		panic(err)
 	}
 	if !importNow {
-		w.iss = append(w.iss, c16Issuer{Name: name, cert: c, certPEM: certPEM, signer: s, ID: "", Parent: parent, EverRemoved: true})
+		w.iss = append(w.iss, c16Issuer{Name: name, cert: c, certPEM: certPEM, signer: s, ID: "", Parent: parent, EverRemoved: true, Group: len(w.iss)})
 		ii := len(w.iss) - 1
 		w.certs = append(w.certs, c16Cert{Serial: c16Serial(c.SerialNumber), cert: c, pem: certPEM, Iss: parent, Stored: true, IsIssuer: ii})
 		w.step("sign CA certificate %s (%s) by %s, not imported as issuer", name, c16Serial(c.SerialNumber), w.iss[parent].Name)
@@ -546,7 +587,7 @@ func (w *c16World) addIntermediate(parent int, importNow bool) int {
 	if r2, e2 := w.do(logical.UpdateOperation, "issuer/"+ids[0], map[string]any{"issuer_name": name}); !c16OK(r2, e2) {
 		panic("c16: name intermediate: " + c16Why(r2, e2))
 	}
-	w.iss = append(w.iss, c16Issuer{Name: name, cert: c, certPEM: certPEM, signer: s, ID: ids[0], Parent: parent})
+	w.iss = append(w.iss, c16Issuer{Name: name, cert: c, certPEM: certPEM, signer: s, ID: ids[0], Parent: parent, Group: len(w.iss)})
 	ii := len(w.iss) - 1
 	w.certs = append(w.certs, c16Cert{Serial: c16Serial(c.SerialNumber), cert: c, pem: certPEM, Iss: parent, Stored: true, IsIssuer: ii})
 	w.step("add %s signed by %s", name, w.iss[parent].Name)
@@ -1102,7 +1143,7 @@ func (w *c16World) check(at string) {
 				continue
 			}
 			ciss := w.certs[ci].Iss
-			if ciss != i && !w.iss[ciss].EverRemoved {
+			if w.iss[ciss].Group != is.Group && !w.iss[ciss].EverRemoved {
 				w.violate("C16-crl-wrong-issuer", fmt.Sprintf("[%s] CRL of issuer %s lists %s which was issued by %s", at, is.Name, s, w.iss[ciss].Name), nil)
 			}
 		}
@@ -1190,12 +1231,17 @@ func (w *c16World) check(at string) {
 				}
 			}
 		}
-		// complete CRL of its issuer
-		if is.ID == "" {
+		// complete CRL of its issuer (or of a present issuer with the same subject and key)
+		ciss := w.crlIssuer(c.Iss)
+		if ciss < 0 {
 			r.Count("crl_not_obliged_issuer_removed", 1)
 			continue
 		}
-		rl := crls[c.Iss]
+		if ciss != c.Iss {
+			r.Count("crl_checked_on_equivalent_issuer", 1)
+			is = &w.iss[ciss]
+		}
+		rl := crls[ciss]
 		if rl == nil {
 			continue
 		}
